@@ -219,9 +219,33 @@ def _nats(l):
     return "[" + ",".join(map(str, l)) + "]"
 
 
-def obs_lines(sc, rec, init_labels):
+def unit_log(exec_log, t, parent, composites):
+    """
+    executions as the level sees them: the ancestors of the target only drive (dropped); any other
+    composite runs as one unit (kept, its descendants' executions folded into it)
+    """
+    anc = set()
+    x = t
+    while x is not None:
+        anc.add(x)
+        x = parent.get(x)
+    out = []
+    for g in exec_log:
+        if g in composites and g in anc:
+            continue
+        p, inside_unit = parent.get(g), False
+        while p is not None:
+            if p not in anc:
+                inside_unit = True
+            p = parent.get(p)
+        if not inside_unit:
+            out.append(g)
+    return out
+
+
+def obs_lines(sc, rec, init_labels, parent):
     s = rec["after"]
-    leaf = [g for g in rec["exec"] if g not in sc.composites]
+    leaf = unit_log(rec["exec"], rec["t"], parent, sc.composites)
     relab = [g for g, l in s["labels"].items() if l != init_labels[g]]
     return [
         f"outcome {rec['outcome']}",
@@ -296,7 +320,7 @@ def run_impl(case):
             pool.shutdown(wait=False, cancel_futures=True)
     obs = []
     for r in recs:
-        obs.extend(obs_lines(sc, r, world["init"]["labels"]))
+        obs.extend(obs_lines(sc, r, world["init"]["labels"], world["parent"]))
     stats = {f"outcome:{r['outcome']}": 1 for r in recs}
     stats[f"top:{case['top']}"] = 1
     stats[f"depth:{len(_walk_levels(case['level'], None, []))}"] = 1
@@ -373,7 +397,14 @@ def model_input(case, impl):
     if case.get("exec"):
         lines.append("exec " + " ".join(map(str, case["exec"])))
     if case.get("fails"):
-        lines.append("fails " + " ".join(map(str, case["fails"])))
+        # a macro that runs as one unit fails iff something inside it fails
+        fl = set(case["fails"])
+        for g in case["fails"]:
+            p = _get(w["parent"], g)
+            while p is not None:
+                fl.add(p)
+                p = _get(w["parent"], p)
+        lines.append("fails " + " ".join(map(str, sorted(fl))))
     for g, v in sorted((int(g), v) for g, v in w["ifs"].items()):
         lines.append(f"truth {g} {int(v)}")
     for r in impl["recs"]:
@@ -416,3 +447,191 @@ def diff(case, impl, model):
                     "why": "no single model variant explains the implementation on all cases"}
         ALIVE.intersection_update(ok_tags)
     return None
+
+
+# ----------------------------------------------------------------------------- generation
+
+
+class _Ids:
+    def __init__(self):
+        self.g = 0
+        self.f = 0
+        self.fid = {}
+
+    def gid(self):
+        self.g += 1
+        return self.g - 1
+
+    def leaf(self):
+        g = self.gid()
+        self.fid[str(g)] = self.f
+        self.f += 1
+        return g
+
+
+def _gen_level(rng, ids, n_leaf, inner, owner_is_macro, clean, p_edge, p_if):
+    """one level: leaves (term / If) and possibly the macro holding `inner`; returns (spec, meta)"""
+    nds = []
+    for _ in range(n_leaf):
+        if rng.random() < p_if:
+            nds.append({"gid": ids.gid(), "kind": "if", "truth": rng.random() < 0.7})
+        else:
+            g = ids.leaf()
+            nds.append({"gid": g, "kind": "term", "fid": ids.fid[str(g)]})
+    macro_gid = None
+    if inner is not None:
+        macro_gid = ids.gid()
+        nds.append({"gid": macro_gid, "kind": "macro", "inner": inner})
+    hidden = [n["gid"] for n in nds]
+    rng.shuffle(hidden)
+    if macro_gid is not None and clean:
+        # nothing may hang on the macro's `ran` once its owner is DAG-wired: make it a data sink
+        hidden.remove(macro_gid)
+        hidden.append(macro_gid)
+    pos = {g: k for k, g in enumerate(hidden)}
+    kind = {n["gid"]: n for n in nds}
+    edges = []
+    for n in nds:
+        g = n["gid"]
+        earlier = [h for h in hidden if pos[h] < pos[g]]
+        if n["kind"] == "term":
+            slots = ["a", "b", "c"]
+        elif n["kind"] == "if":
+            slots = ["condition"] if n["truth"] else []
+        else:
+            slots = ["x"]
+        for s in slots:
+            k = 0
+            if earlier and rng.random() < p_edge:
+                k = 1 if (rng.random() < 0.75 or s == "condition") else 2
+            for src in rng.sample(earlier, min(k, len(earlier))):
+                edges.append([g, s, src])
+    rng.shuffle(edges)
+    order = list(nds)
+    rng.shuffle(order)
+    spec = {"nodes": order, "edges": edges}
+    if owner_is_macro:
+        leaves = [n["gid"] for n in nds if n["kind"] != "macro"]
+        free = [(n["gid"], s) for n in nds if n["kind"] == "term" for s in "abc"
+                if not any(e[0] == n["gid"] and e[1] == s for e in edges)]
+        k = rng.choice([0, 1, 1, 2, 3])
+        spec["xin"] = [list(p) for p in rng.sample(free, min(k, len(free)))]
+        spec["out"] = rng.choice(leaves)
+    return spec, {"hidden": hidden, "macro": macro_gid, "gids": [n["gid"] for n in nds],
+                  "leaves": [n["gid"] for n in nds if n["kind"] != "macro"],
+                  "ifs": {n["gid"]: n["truth"] for n in nds if n["kind"] == "if"}}
+
+
+def gen_scene(rng, max_leaf=4, clean=None, fault=None):
+    ids = _Ids()
+    clean = (rng.random() < 0.5) if clean is None else clean
+    top = rng.choice(["none", "wf", "wf"])
+    depth = rng.choice([1, 1, 2, 2, 3])
+    if top == "none" and depth == 3:
+        depth = 2
+    p_edge = rng.choice([0.35, 0.5, 0.7])
+    p_if = 0.0 if rng.random() < 0.3 else 0.25
+    metas = []
+    inner = None
+    # innermost level first (its description is nested into the macro node of the level above)
+    for lvl in range(depth - 1, -1, -1):
+        n_leaf = rng.randint(2 if lvl == depth - 1 else 1, max_leaf)
+        spec, meta = _gen_level(rng, ids, n_leaf, inner, owner_is_macro=(lvl > 0), clean=clean, p_edge=p_edge, p_if=p_if)
+        metas.insert(0, meta)
+        inner = spec
+    case = {"top": top, "level": inner, "fid": ids.fid}
+    if top == "wf":
+        case["wfgid"] = ids.gid()
+    owners = []  # owner gid of each level (None = parentless)
+    for lvl, meta in enumerate(metas):
+        owners.append((case.get("wfgid") if top == "wf" else None) if lvl == 0 else metas[lvl - 1]["macro"])
+    post = {"dagwire": [], "late_edges": [], "signals": [], "starting": {}, "automate": {}}
+    for lvl, meta in enumerate(metas):
+        own = owners[lvl]
+        if own is not None and rng.random() < 0.45:
+            post["dagwire"].append(own)
+        hidden, mg = meta["hidden"], meta["macro"]
+        for _ in range(rng.choice([0, 0, 1, 2, 3])):
+            if len(hidden) < 2:
+                break
+            i, j = sorted(rng.sample(range(len(hidden)), 2))
+            a, b = hidden[i], hidden[j]
+            r = rng.random()
+            if clean and a == mg:
+                continue  # no signal out of a macro that may have to drive a pull
+            if r < 0.5:
+                post["signals"].append(["rr", a, b])
+            elif r < 0.7:
+                srcs = [h for h in hidden[:j] if not (clean and h == mg)]
+                post["signals"].append(["acc", b, rng.sample(srcs, min(len(srcs), rng.choice([1, 2])))])
+            elif not clean and a != mg:
+                if a in meta["ifs"] and rng.random() < 0.7:
+                    chn = "true" if (meta["ifs"][a] if rng.random() < 0.8 else not meta["ifs"][a]) else "false"
+                else:
+                    chn = "failed"
+                post["signals"].append(["sig", a, chn, b, rng.choice(["run", "run", "accumulate_and_run"])])
+        if own is not None and rng.random() < 0.3:
+            post["starting"][str(own)] = rng.sample(meta["gids"], rng.randint(0, min(2, len(meta["gids"]))))
+    if top == "wf" and rng.random() < 0.15:
+        post["automate"][str(case["wfgid"])] = False
+    # faults
+    fault = fault or rng.choice(["none"] * 9 + ["fails"] * 5 + ["cyclic"] * 2 + ["exec"] * 2 + ["mixed"] * 2)
+    all_leaves = [g for m in metas for g in m["leaves"]]
+    case["fails"], case["exec"], case["foreign"] = [], [], []
+    if fault == "fails":
+        cand = [g for g in all_leaves if str(g) in ids.fid]
+        case["fails"] = rng.sample(cand, min(len(cand), rng.choice([1, 1, 2])))
+    elif fault == "exec":
+        case["exec"] = [rng.choice(all_leaves)]
+    elif fault == "cyclic":
+        m = rng.choice(metas)
+        terms = [g for g in m["leaves"] if str(g) in ids.fid]
+        if terms:
+            hid = [h for h in m["hidden"] if h in terms]
+            a = rng.choice(hid)
+            later = [h for h in m["hidden"] if m["hidden"].index(h) >= m["hidden"].index(a) and h != m["macro"]]
+            post["late_edges"].append([a, rng.choice("abc"), rng.choice(later)])
+            if a != later[-1] and rng.random() < 0.5:
+                # make sure the back edge closes a cycle: later[-1] takes data from a as well
+                if str(later[-1]) in ids.fid:
+                    post["late_edges"].append([later[-1], rng.choice("abc"), a])
+    elif fault == "mixed":
+        lv = [k for k, o in enumerate(owners) if o is not None]
+        if lv:
+            m = metas[rng.choice(lv)]
+            terms = [g for g in m["leaves"] if str(g) in ids.fid]
+            if terms:
+                g = ids.leaf()
+                case["foreign"].append({"gid": g, "fid": ids.fid[str(g)]})
+                post["late_edges"].append([rng.choice(terms), rng.choice("abc"), g])
+    case["post"] = post
+    case["ngid"] = ids.g
+    case["_meta"] = {"clean": clean, "fault": fault, "leaves": all_leaves, "levels": [m["leaves"] for m in metas]}
+    return case
+
+
+def with_pulls(case, pulls):
+    c = {k: v for k, v in case.items()}
+    c["pulls"] = [list(p) for p in pulls]
+    return json.loads(json.dumps(c))
+
+
+def gen_cases(rng, tier):
+    n_scenes = 150 if tier == "quick" else 900
+    for k in range(n_scenes):
+        sc = gen_scene(rng, max_leaf=4 if tier == "quick" else 5, clean=(k % 2 == 0))
+        leaves = sc["_meta"]["leaves"]
+        deep = sc["_meta"]["levels"][-1]
+        if tier == "quick":
+            targets = [rng.choice(deep), rng.choice(leaves)]
+        else:
+            targets = list(leaves)
+        for t in targets:
+            par = rng.random() < 0.5
+            pulls = [[t, int(par)]]
+            if rng.random() < 0.2:
+                pulls.append([rng.choice(leaves), int(rng.random() < 0.5)])
+            yield with_pulls(sc, pulls)
+            if tier == "thorough":
+                yield with_pulls(sc, [[t, int(not par)]])
+    # a malformed stream is exercised by `corpus_malformed` through the driver directly
